@@ -115,16 +115,17 @@ CLAIMED["C13"] = dict(
     technique="Coq proof (order lemmas over Q lifted to lists) + vm_compute differential correspondence (iterate, implicit units)",
     ref="4/C13")
 CLAIMED["C14"] = dict(
-    text="Theorems for every linear H0, J, J^T, active set, lambda > 0, rho > 0 and residual: a solution of the extended / "
-         "asymmetric system, post-processed by dy = fact*(sy - rho*b2), solves the standard Newton system with Hessian "
-         "H0 + rho J^T J, and conversely; the symmetric reduced system is equivalent to the extended one; one step is exact "
-         "when the residual is affine along it; Simplified/Full/ActiveSet variants take the same first step. The list-level "
-         "systems each solver assembles (matrix, rhs, post-processing, clipping, when each Newton variant refreshes what) are "
-         "tied to the code at the linear-solver interface by exact correspondence. Partial: the step from list-level rows "
-         "to the abstract row equations is by inspection; 'up to the linear solver's tolerance' is C17.",
+    text="Theorems on the lists the code assembles, for an arbitrary problem (arbitrary callbacks), point, multiplier, "
+         "derivative point, active set, dt > 0, rho > 0: any exact solution of the system the Standard / Extended / Symmetric / "
+         "Asymmetric step solver builds, post-processed as the code does (dy = fact*(sy - rho*b2), re-expansion of the reduced "
+         "solution), solves the standard Newton system F'_A(z) s = F(z) with Hessian H(x, y + rho c) + rho J^T J; if that matrix "
+         "is injective any two solvers return the same step. Abstract layer: the same for every linear H0, J, J^T, and conversely; "
+         "one step is exact when the residual is affine along it; Simplified/Full/ActiveSet variants take the same first step. "
+         "The assembled systems (matrix, rhs, post-processing, clipping, when each Newton variant refreshes what) are tied to the "
+         "code at the linear-solver interface by exact correspondence. 'Up to the linear solver's tolerance' is C17.",
     note=BASE_NOTE,
-    technique="Coq proof (field/ring algebra over abstract linear operators) + vm_compute differential correspondence of the "
-              "assembled systems with a scripted linear solver",
+    technique="Coq proof (list-level block elimination / permutation / reduction lemmas, field algebra over Q) + vm_compute "
+              "differential correspondence of the assembled systems with a scripted linear solver",
     ref="4/C14")
 
 CLAIMED["C19"] = dict(
